@@ -49,9 +49,10 @@ Fixpoint spine (t : src) : list src :=
        | _ => []
        end.
 
-(** every field records its type name, is not [#[codec(compact)]], has a plain type of the fragment *)
+(** no field is [#[codec(compact)]], every field has a plain type of the fragment (recorded type
+    names may be present or absent) *)
 Definition teq_field_okb (f : sfield) : bool :=
-  sf_type_name f && negb (sf_compact_attr f) && plain_src (sf_ty f) && teq_frag (sf_ty f).
+  negb (sf_compact_attr f) && plain_src (sf_ty f) && teq_frag (sf_ty f).
 
 Definition teq_def_okb (d : sdef) : bool := forallb teq_field_okb (def_sfields d).
 
